@@ -76,7 +76,11 @@ impl<T: RequestHandler> ServerTask<T> {
     /// [`ServerHandle::shutdown`] is called.
     pub async fn run(self) {
         match self.inner {
-            ServerTaskInner::Tcp(mut task, commands) => task.run(commands).await,
+            ServerTaskInner::Tcp(mut task, commands) => {
+                task.run(commands).await;
+                #[cfg(feature = "verif-hooks")]
+                crate::verif::emit(crate::verif::Event::ServerEnd);
+            }
             #[cfg(feature = "serial")]
             ServerTaskInner::Rtu(mut task) => {
                 task.run().await;
